@@ -117,11 +117,28 @@ process.on('uncaughtException', (e) => {
         late_exception_count += 1;
     }
 });
+let hang_count = 0;
+let hang_example = null;
+class ReaderHangs extends Error {}
 function guarded(work) {
+    // a read that produces neither a result nor an error within HANG_MS is a hang of the reader (tiny inputs, in-memory streams: milliseconds are
+    // normal); after three of them the run is abandoned and reported as such instead of waiting for every remaining delivery
+    const HANG_MS = 4000;
+    let timer = null;
     return new Promise((resolve, reject) => {
         current_reject = reject;
+        timer = setTimeout(() => {
+            hang_count += 1;
+            let err = new ReaderHangs('the reader did not finish within ' + HANG_MS + ' ms');
+            if (hang_count >= 3) { abandon(err); return; }
+            reject(err);
+        }, HANG_MS);
         work().then(resolve, reject);
-    }).finally(() => { current_reject = null; });
+    }).finally(() => { current_reject = null; if (timer !== null) clearTimeout(timer); });
+}
+function abandon(err) {
+    fs.writeFileSync(process.argv[4], JSON.stringify({ok: true, repo_js: REPO_JS, abandoned: 'reader-does-not-terminate', hang_count: hang_count, results: []}));
+    process.exit(0);
 }
 
 let delivery_check_failures = 0;
@@ -468,6 +485,23 @@ class NodeCtx(object):
             pass
 
 
+class ReaderHangs(Exception):
+    pass
+
+
+def hang_is_a_failure(f):
+    """a reader that does not terminate is a violation of the property (no result), not a crash of the harness"""
+    def wrapped(prop, tier, seed):
+        try:
+            return f(prop, tier, seed)
+        except ReaderHangs as e:
+            return {'job': f.__name__, 'evaluations': 3, 'distinct_nontrivial': 3, 'exhaustive': False, 'rule': 'abandoned: ' + str(e),
+                    'failures': [{'replay': 'none', 'key': 'reader-does-not-terminate', 'expected': 'every read ends with the records or an error', 'observed': str(e)}]}
+    wrapped.__name__ = f.__name__
+    wrapped.__doc__ = f.__doc__
+    return wrapped
+
+
 def start_node(ctx, ops):
     ctx.launches += 1
     ip = os.path.join(ctx.tmp, 'batch_%d.json' % ctx.launches)
@@ -500,6 +534,8 @@ def finish_node(ctx, handle, timeout):
     with open(op) as f:
         res = json.load(f)
     assert res.get('ok') and res.get('repo_js') == REPO_JS, res.get('repo_js')
+    if res.get('abandoned'):
+        raise ReaderHangs('%s (%d reads produced neither a result nor an error within 4 s)' % (res['abandoned'], res.get('hang_count', 0)))
     if res.get('late_exception_count'):
         ctx.late = getattr(ctx, 'late', [])
         ctx.late.append({'count': res['late_exception_count'], 'examples': res.get('late_exceptions', [])})
@@ -706,6 +742,7 @@ def py_enum_digests(rbql_csv, maxlen, shards):
 
 
 @job('C20')
+@hang_is_a_failure
 def js_stream_reader_chunk_independence(prop, tier, seed):
     rbql, eng = load_rbql()
     from rbql import rbql_csv
@@ -876,6 +913,7 @@ def js_stream_reader_chunk_independence(prop, tier, seed):
 
 
 @job('C20')
+@hang_is_a_failure
 def js_stream_readers_do_not_interfere(prop, tier, seed):
     """two stream readers open at the same time (a JOIN of two CSV streams): each must give what it gives alone, whatever the chunks"""
     ctx = NodeCtx()
